@@ -371,7 +371,7 @@ static void checkC05(Ctx& c, long idx, Rng& r) {
             g.sys.realize(t, Stage::Position);
             g.body.setUToFitLinearVelocity(t, toVec3(kt.v));
             g.sys.realize(t, Stage::Velocity); Vd = g.body.getMobilizerVelocity(t);
-            c.check("fitU-linear:reversed-mobilizer-with-nonzero-angular-velocity", vecDiff(Vd[1], kt.v) / tv, FT,
+            c.check("fitU-linear-keeping-angular-velocity:reversed-mobilizer", vecDiff(Vd[1], kt.v) / tv, FT,
                     WF("reversed mobilizer: setUToFitLinearVelocity(representable v_FM) ignores the current relative angular velocity"));
             c.cover(cov + "|fitU-linear/keep-angular");
         }
